@@ -550,6 +550,23 @@ func init() {
 				st1, out1, err1 := ps.post(plain)
 				seqOK = seqOK && err1 == nil && st1 == 200 && bytes.Equal(bytes.TrimSpace(out1), bytes.TrimSpace(out0))
 			}
+			{ // an ELECTRE parameter entry for a criterion that is not declared does not take part in the decision
+				var ub J
+				json.Unmarshal(plain, &ub)
+				ub["methodParameters"].(J)["electreCriteria"].(J)["zz_undeclared"] = J{"k": -4}
+				uj, _ := json.Marshal(ub)
+				ps.client.Timeout = 8 * time.Second
+				stU, outU, errU := ps.post(uj)
+				okU := errU == nil && stU == 200 && bytes.Equal(bytes.TrimSpace(outU), bytes.TrimSpace(out0))
+				o.Oracle(Meta{Stage: "resource:electre-undeclared-entry", Input: J{"request": ub}, Key: "electre-undeclared"}, okU && ps.alive(),
+					"an ELECTRE request with a parameter entry for an undeclared criterion is not answered like the request without it (or the server stopped answering)")
+				if !ps.alive() {
+					ps.stop()
+					if s2, err := startServer(dir); err == nil {
+						ps = s2
+					}
+				}
+			}
 			o.Oracle(Meta{Stage: "sequence:electre-default-distillation", Input: J{"request": json.RawMessage(plain), "requests_in_between": hist}, Key: "seq-electre"},
 				seqOK && ps.alive(), "an ELECTRE request relying on the default distillation function is answered differently (or not at all) after requests that stated their own function")
 			ps.stop()
@@ -649,6 +666,14 @@ func init() {
 			m := Meta{Case: c, Stage: "valid", Input: J{"request": q.Body}, Key: string(q.JSON())}
 			send(m, q.JSON(), 200, "a valid request was not answered with 200")
 			o.count("valid:" + q.Method)
+			if q.Method == "electreIII" {
+				// thresholds / weights given for a criterion nobody declared are not part of the problem
+				vb := cloneJ(q.Body)
+				vb["methodParameters"].(J)["electreCriteria"].(J)["zz_undeclared"] = J{"k": []float64{-4, -1, 2.5}[r.Intn(3)]}
+				js, _ := json.Marshal(vb)
+				send(Meta{Case: c, Stage: "weird", Input: J{"request": vb}, Key: "wu" + string(js)}, js, 0, "")
+				o.count("weird:electre-undeclared-entry")
+			}
 			// every applicable documented violation, one at a time
 			for _, v := range violations {
 				// violations that fit one method only are always tried (their base requests are rare)
